@@ -436,7 +436,7 @@ class VOp:
 
 
 SLOTS = ['V0', 'V1']
-KEYS = ['k', 'K', E1, E2, '', ' k', 'bad']
+KEYS = ['k', 'K', E1, E2, '', ' k', 'bad', '\u0958']      # the last one grows by one unit when normalised (composition exclusion)
 PNAMES = ['_a', '_A', '_b', 'bad', '_' + E1, '_' + E2]
 
 
